@@ -9,7 +9,10 @@ and the tree is restored (git checkout) straight afterwards. Not part of the reg
 import json, os, subprocess, sys, time
 
 V = os.path.dirname(os.path.dirname(os.path.abspath(__file__)))
-REPO = '/repo'
+SRC = '/repo'
+# mutants never touch /repo: they are applied to a scratch git worktree, built into a scratch build directory
+REPO = os.environ.get('MUT_SCRATCH', '/var/tmp/verif-scratch-repo')
+BUILD = os.environ.get('MUT_BUILD', '/var/tmp/verif-scratch-build')
 
 # (name, property, file, old, new)
 M = [
@@ -60,7 +63,8 @@ def restore():
 
 def run_check(prop):
     t = time.time()
-    r = subprocess.run(['./check', prop, 'quick'], cwd=V, stdout=subprocess.PIPE, stderr=subprocess.STDOUT, text=True)
+    env = dict(os.environ, VERIF_REPO=REPO, VERIF_BUILD=BUILD)
+    r = subprocess.run(['./check', prop, 'quick'], cwd=V, env=env, stdout=subprocess.PIPE, stderr=subprocess.STDOUT, text=True)
     viol = [l for l in r.stdout.splitlines() if l.startswith('VIOLATION') or l.startswith('  minimised') or l.startswith('violation candidate')]
     return r.returncode, viol, time.time() - t, r.stdout
 
@@ -71,7 +75,7 @@ def main():
         for m in M:
             print(m[1], m[0])
         return 0
-    sel = args[1:]
+    sel = [a for a in args[1:] if not a.startswith('--')]
     todo = [m for m in M if not sel or m[0] in sel or m[1] in sel]
     seeded = []
     sd = os.path.join(V, 'seeded')
@@ -80,8 +84,9 @@ def main():
             meta = os.path.join(sd, d, 'meta.json')
             if os.path.exists(meta) and (not sel or d in sel or json.load(open(meta)).get('property') in sel):
                 seeded.append((d, json.load(open(meta))['property'], os.path.join(sd, d, 'patch.diff')))
-    if subprocess.run(['git', '-C', REPO, 'status', '--porcelain', '--untracked-files=no'], capture_output=True, text=True).stdout.strip():
-        raise SystemExit('/repo has uncommitted changes; refusing')
+    subprocess.run(['git', '-C', SRC, 'worktree', 'remove', '--force', REPO], capture_output=True)
+    subprocess.run(['git', '-C', SRC, 'worktree', 'prune'], capture_output=True)
+    subprocess.run(['git', '-C', SRC, 'worktree', 'add', '--detach', REPO, 'HEAD'], check=True, capture_output=True)
     results = []
     try:
         for m in todo:
@@ -104,7 +109,9 @@ def main():
             if rc not in (0, 1):
                 print(out[-1500:])
     finally:
-        restore()
+        subprocess.run(['git', '-C', SRC, 'worktree', 'remove', '--force', REPO], capture_output=True)
+        if '--keep-build' not in sys.argv:
+            subprocess.run(['rm', '-rf', BUILD])
     return 0
 
 
